@@ -2,6 +2,8 @@
 import json
 import zlib
 
+from lark import Token
+
 from mc import histories
 from mc.runner import Result
 
@@ -17,7 +19,7 @@ AHB = ["Muss [1] U [2] Soll [3]"]
 PACKAGES = {"4P": "[1] O [3]"}
 RC = {"1": "F", "2": "U", "3": "?", "492": "F", "493": "U"}
 FC = {"901": (True, None), "932": (True, None), "934": (False, "msg 934")}
-EDIT_KINDS = ["replace_child", "delete_child", "append_child", "clear_children", "rename_node"]
+EDIT_KINDS = ["replace_child", "delete_child", "append_child", "clear_children", "rename_node", "set_token_value"]
 FLOOD_N = 1100
 NONEDIT_OPS = [["Pc", 0], ["Pc", 1], ["Pc", 2], ["Pc", 3], ["Pm", 0], ["Pm", 1], ["Pa", 0], ["R", 0], ["R", 1], ["Ev", 0], ["Flood"]]
 BOUNDS = {"quick": {"depth": 3, "max_edits": 1, "flood_depth": 2, "spread": 4},
@@ -30,7 +32,7 @@ def describe(tier):
         "rule": f"breadth-first search over ALL operation histories up to depth {b['depth']} over the alphabet Pc(s) (condition parser, "
                 f"{len(COND)} strings incl. keys outside the number ranges), Pm(s) (a MALFORMED string that equals a valid one when whitespace is "
                 "removed), Pa(s) (AHB parser), R(s) (resolver with packages + time conditions, AHB and condition string), Ev(s) "
-                "(evaluate under a fixed content evaluation result), Edit(handle, node, kind) on one of the last two returned trees for EVERY "
+                "(evaluate under a fixed content evaluation result), Edit(handle, node, kind) - child list edits, renaming, and assignment to the attributes of a Token object - on one of the last two returned trees for EVERY "
                 f"node of the tree and kind in {EDIT_KINDS}, Flood (= {FLOOD_N} fresh distinct strings through both public parsers: real LRU "
                 f"eviction, every flooded result checked); at most {b['max_edits']} edits per history, at most one flood, floods only in "
                 "edit-free histories (deviation bounds). Every transition replays the history from scratch on the real functions with "
@@ -206,7 +208,8 @@ def _apply(world: World, op):
     elif kind == "Edit":
         _, h, j, ek = op
         nodes = _nodes(world.handles[h]) if h < len(world.handles) else []
-        if j >= len(nodes) or (ek in ("replace_child", "delete_child", "clear_children") and not nodes[j].children):
+        if j >= len(nodes) or (ek in ("replace_child", "delete_child", "clear_children") and not nodes[j].children) or \
+                (ek == "set_token_value" and not (nodes[j].children and isinstance(nodes[j].children[0], Token))):
             # the edit was enabled when the parent history was executed: the same operations returned a different tree now
             viol.append({"kind": "parse-differs-from-fresh", "target": "replay of the same history returned a different tree",
                          "expected": f"a tree with node #{j}", "observed": f"{len(nodes)} nodes"})
@@ -222,6 +225,10 @@ def _apply(world: World, op):
             node.children.clear()
         elif ek == "rename_node":
             node.data = "renamed"
+        elif ek == "set_token_value":
+            # the Token OBJECT of the returned tree is modified (its attributes are writable), the children list is left alone
+            node.children[0].value = "777"
+            node.children[0].type = "EDITED"
     else:
         raise ValueError(op)
     return viol
@@ -233,6 +240,8 @@ def _enabled(world: World):
         for j, node in enumerate(_nodes(tree)):
             for ek in EDIT_KINDS:
                 if ek in ("replace_child", "delete_child", "clear_children") and not node.children:
+                    continue
+                if ek == "set_token_value" and not (node.children and isinstance(node.children[0], Token)):
                     continue
                 ops.append(["Edit", h, j, ek])
     return ops
